@@ -151,6 +151,7 @@ def pairing_obligation(run):
 def loader_executor():
     ex = Executor(havoc={"print"})
     ex.class_models = {"DataLoader": {"mro": ["DataLoader"]}}
+    ex.foreign_classes = {"Transform"}          # user-supplied: truthiness unconstrained
     return ex
 
 
@@ -296,13 +297,15 @@ def runtime_part(run, tier, seed):
                             run.violation(MOD + "split_dataset.order_preserved_without_shuffle", "order %s" % order.tolist(), key=key, replay={})
         # DataLoader
         for b in range(1, nmax + 2):
-            for with_t in (False, True):
+            for with_t in (False, True, "an object that is falsy (__len__ == 0)", "an object that is falsy (__bool__)"):
                 calls = []
 
                 class T(data.DataLoaderCallback):
                     def __call__(self, dl, Xb, yb):
                         calls.append((Xb.copy(), yb.copy()))
                         return Xb * 2, yb + 1
+                if isinstance(with_t, str):     # a transform is whatever callable object the caller passes, e.g. an (empty) pipeline of steps
+                    T = type("T", (T,), {"__len__": lambda self: 0} if "__len__" in with_t else {"__bool__": lambda self: False})
                 dl = data.DataLoader(X, y, b, T() if with_t else None)
                 run.rt(("loader", n, b, with_t))
                 key = {"n": n, "batch_size": b, "transform": with_t}
@@ -310,10 +313,14 @@ def runtime_part(run, tier, seed):
                     L = len(dl)
                     first = [bt for bt in dl]
                     second = [bt for bt in dl]
+                    for _bt in dl:              # a loop left early: the loader is partially consumed ...
+                        break
+                    third = [bt for bt in dl]   # ... and the next iteration still starts from the first batch
                 except Exception as e:
                     run.violation(MOD + "DataLoader.iteration_completes", "iteration raised %s: %s" % (type(e).__name__, e), key={**key, "exception": type(e).__name__}, replay=key)
                     continue
-                ok = L == n // b and len(first) == L and len(second) == L
+                ok = L == n // b and len(first) == L and len(second) == L and len(third) == L
+                ok = ok and all(np.array_equal(t_[0], f_[0]) and np.array_equal(t_[1], f_[1]) for t_, f_ in zip(third, first))
                 for i, (xb, yb) in enumerate(first):
                     ex_x, ex_y = X[i * b:(i + 1) * b], y[i * b:(i + 1) * b]
                     if with_t:
@@ -329,6 +336,10 @@ def runtime_part(run, tier, seed):
     # every integer label vector over -3..3 (any mix of signs, gaps, label sets whose maximum happens to be K-1, ...), as a list and as an integer array
     ints = list(range(-3, 4))
     todo += [(ints, length, vec, form) for length in range(1, 5 if tier == "quick" else 6) for vec in itertools.product(ints, repeat=length) for form in ("list", "int array")]
+    # distinct floating point labels are distinct labels however close they are (and equal ones are equal): neighbouring doubles, values that differ by 1e-9, large values
+    # one apart, as a list and as a float array
+    for fl in ([1.0, 1.0 + 1e-9, 1.0 - 1e-9, 2.0], [0.0, 1e-12, -1e-12, 5e-324], [1e8, 1e8 + 1.0, 1e8 - 1.0, 3.0], [0.1 + 0.2, 0.3, 0.30000000000000004 + 1e-16, 0.5]):
+        todo += [(fl, length, vec, form) for length in range(1, 5) for vec in itertools.product(fl, repeat=length) for form in ("list", "float array")]
     if True:
         if True:
             for ls, length, vec, form in todo:
